@@ -626,6 +626,15 @@ impl Runner {
             }
             Op::Partition { .. } | Op::Heal { .. } | Op::NetCut
             | Op::NetRestore => "handled".into(),
+            Op::CrashNext { inst, k } => {
+                if inst >= self.world.insts.len()
+                    || !self.world.inst(inst).cfg.disk
+                {
+                    return "skip:memory".into()
+                }
+                self.ext.pending_crash = Some((inst, k));
+                "armed".into()
+            }
             Op::SignerOffline => {
                 self.ext.signer_offline = true;
                 "offline".into()
@@ -714,7 +723,37 @@ impl Runner {
     }
 
     pub fn exec_pump(&mut self) -> String {
-        match crate::oracles::pump_stepwise(self) {
+        // A crash that was ordered for this stretch of background work.
+        let armed = self.ext.pending_crash.take();
+        if let Some((inst, k)) = armed {
+            let mut st = hooks::state();
+            st.fault = hooks::FaultPlan {
+                mode: hooks::FaultMode::CrashAt(k),
+                scope: hooks::FaultScope::All,
+                instance: Some(inst),
+                counter: 0,
+                fired_at: None,
+                record: true,
+                sites: Vec::new(),
+            };
+            st.veto_presave_window = true;
+            self.ext.crash_recovery = true;
+        }
+        let res = crate::oracles::pump_stepwise(self);
+        if armed.is_some() {
+            let fired = {
+                let mut st = hooks::state();
+                let fired = st.fault.fired_at.is_some();
+                st.fault = hooks::FaultPlan::default();
+                st.veto_presave_window = false;
+                fired
+            };
+            self.ext.crash_recovery = false;
+            if !fired {
+                self.stat("crash_next.not_reached");
+            }
+        }
+        match res {
             Guarded::Ok(true) => {
                 self.sync_model_after_pump();
                 self.check_caught_up();
